@@ -76,7 +76,7 @@ pub(crate) struct Env {
     pub maps: [(usize, usize, bool); NMAP],
     pub mmap_n: usize,
     pub mmap_args: [(usize, i32, i32, i32, i64); NMAP],
-    pub mmap_ret: [usize; NMAP],
+    pub mmap_ret: [*mut libc::c_void; NMAP],
     pub mmap_errno: i32,
     pub munmap_n: u32,
     pub madvise_n: usize,
@@ -137,7 +137,7 @@ pub(crate) static mut E: Env = Env {
     maps: [(0, 0, false); NMAP],
     mmap_n: 0,
     mmap_args: [(0, 0, 0, 0, 0); NMAP],
-    mmap_ret: [0; NMAP],
+    mmap_ret: [std::ptr::null_mut(); NMAP],
     mmap_errno: 12,
     munmap_n: 0,
     madvise_n: 0,
@@ -407,23 +407,22 @@ pub(crate) unsafe fn sys_setup(entries: u32, p: *mut libc::c_void) -> i32 {
         E.setup_n += 1;
         E.setup_entries = entries;
         ev(EV_SETUP, entries as u64, 0);
-        let w = p as *mut u32;
-        let mut k = 0;
-        while k < 30 {
-            E.setup_in[k] = w.add(k).read();
-            k += 1;
-        }
+        // io_uring_params is 120 bytes = 30 words; copied as one block (no loop for CBMC to unwind)
+        std::ptr::copy_nonoverlapping(p as *const [u32; 30], std::ptr::addr_of_mut!(E.setup_in), 1);
         if E.setup_ret == -1 {
             set_errno(E.setup_errno);
             return -1;
         }
-        let mut k = 0;
-        while k < 30 {
-            w.add(k).write(E.setup_out[k]);
-            k += 1;
-        }
+        std::ptr::copy_nonoverlapping(std::ptr::addr_of!(E.setup_out), p as *mut [u32; 30], 1);
         E.setup_ret
     }
+}
+
+/// Stub for `<OwnedFd as Drop>::drop` (std calls its own private copy of libc's `close`, which `kani::stub` on
+/// `libc::close` does not reach): records the close in the same ledger as the shadowed `libc::close` a10 calls.
+pub(crate) fn owned_fd_drop(fd: &mut std::os::fd::OwnedFd) {
+    use std::os::fd::AsRawFd;
+    unsafe { close(fd.as_raw_fd()) };
 }
 
 // ---------------------------------------------------------------- libc ledger
@@ -443,12 +442,12 @@ pub(crate) unsafe fn mmap(addr: *mut libc::c_void, len: usize, prot: i32, flags:
             return libc::MAP_FAILED;
         }
         E.mmap_args[i] = (len, prot, flags, fd, off);
-        if E.mmap_ret[i] == 0 {
+        if E.mmap_ret[i].is_null() {
             set_errno(E.mmap_errno);
             return libc::MAP_FAILED;
         }
-        E.maps[i] = (E.mmap_ret[i], len, true);
-        E.mmap_ret[i] as *mut libc::c_void
+        E.maps[i] = (E.mmap_ret[i].addr(), len, true);
+        E.mmap_ret[i]
     }
 }
 pub(crate) unsafe fn munmap(addr: *mut libc::c_void, len: usize) -> i32 {
@@ -499,13 +498,5 @@ pub(crate) unsafe fn close(fd: i32) -> i32 {
     }
 }
 pub(crate) fn live_maps() -> usize {
-    let mut n = 0;
-    let mut k = 0;
-    while k < NMAP {
-        if unsafe { E.maps[k].2 } {
-            n += 1;
-        }
-        k += 1;
-    }
-    n
+    unsafe { E.maps[0].2 as usize + E.maps[1].2 as usize + E.maps[2].2 as usize + E.maps[3].2 as usize }
 }
